@@ -503,3 +503,14 @@ Proof.
   exists w_seg0, (mkProg 0 0 2 false [m1]), (mkProg 1 1 2 false [use0]), (mkProg 2 2 2 false [m1; use0]).
   split; [reflexivity|]. vm_compute. split; reflexivity.
 Qed.
+
+(* Program._linked_copy as written: running (= compiling again) a program that is itself a compiled
+   copy and uses a measured parameter raises before the engine does anything, although the very
+   same circuit runs when the program is not a copy *)
+Definition m0c := mkCmd KMeas 6 1 false [0].
+Definition useq0 := mkCmd KGate 0 0 false [1].
+Definition w_link := mkWorld [[PMeas 0; PConst 0]; []] [vclear 2] [true; true].
+Theorem linked_copy_rerun_refuted :
+  exists w c, (match tb_run as_written (w, fresh) [mkProg 1 0 2 true c] with Err EAttr _ => True | _ => False end)
+           /\ (match tb_run as_written (w, fresh) [mkProg 0 0 2 false c] with Ok _ => True | _ => False end).
+Proof. exists w_link, [m0c; useq0]. vm_compute. split; exact I. Qed.
